@@ -1112,6 +1112,14 @@ func init() {
 		return deepCopyValue(args[0], map[*value]*value{})
 	}
 
+	// koanf's maps.Copy goes through mitchellh/copystructure (reflection): structural deep copy of the map tree
+	S["github.com/knadh/koanf/maps.Copy"] = func(w *Worker, fr *frame, fn *ssa.Function, args []value) value {
+		if m, ok := args[0].(*omap); ok && m == nil {
+			return newOmap(types.Typ[types.String])
+		}
+		return deepCopyValue(args[0], map[*value]*value{})
+	}
+
 	// errors
 	S["errors.Is"] = func(w *Worker, fr *frame, fn *ssa.Function, args []value) value {
 		return w.errorsIs(fr, args[0].(iface), args[1].(iface), 0)
@@ -1582,6 +1590,25 @@ func deepCopyValue(v value, memo map[*value]*value) value {
 		return n
 	case iface:
 		return iface{t: x.t, v: deepCopyValue(x.v, memo)}
+	case *omap:
+		if x == nil {
+			return x
+		}
+		n := newOmap(x.keyType)
+		for _, e := range x.entries {
+			if e.deleted {
+				continue
+			}
+			ne := &mentry{key: e.key, val: deepCopyValue(e.val, memo), symKey: e.symKey}
+			n.entries = append(n.entries, ne)
+			n.n++
+			if e.symKey {
+				n.nsym++
+			} else {
+				n.idx[mapKey(e.key)] = ne
+			}
+		}
+		return n
 	}
 	return v
 }
